@@ -241,7 +241,7 @@ func checkC12(c *Ctx, r *Report) {
 		}
 		var doRes AV
 		for _, cr := range ci.an.calls {
-			if cr.frame == ci.top && cr.callee == ci.do {
+			if ci.inTop(cr) && cr.callee == ci.do {
 				if t, ok := cr.res.(ATuple); ok && len(t) == 2 {
 					doRes = t[0]
 				}
@@ -322,29 +322,41 @@ func c12Sources(c *Ctx, r *Report, ci *clientInfo) {
 		}
 	}
 	// Do: the only non-nil response is parseResponseFunc's result
-	tf := ci.top
-	for _, rs := range tf.returns {
-		if len(rs.state) == 0 {
-			continue
-		}
-		vn := tf.nilOrNilPtr(rs.vals[0])
-		if vn.kind == fConst && vn.b {
-			continue
-		}
-		ok := false
-		if ref, isR := rs.vals[0].(ARef); isR {
-			for _, cr := range ci.dynCalls(tf, ci.parse) {
-				if t, isT := cr.res.(ATuple); isT && len(t) == 2 {
-					if r0, isR0 := t[0].(ARef); isR0 && r0.key == ref.key {
-						ok = true
+	tops := []*Frame{ci.top}
+	seenTop := map[*Frame]bool{ci.top: true}
+	for ti := 0; ti < len(tops); ti++ {
+		tf := tops[ti]
+		for _, rs := range tf.returns {
+			if len(rs.state) == 0 {
+				continue
+			}
+			vn := tf.nilOrNilPtr(rs.vals[0])
+			if vn.kind == fConst && vn.b {
+				continue
+			}
+			// a response forwarded from a helper Do delegates to: examined at the helper's returns
+			if ch := ci.childOfCall(rs.vals[0]); ch != nil && ch.fn.Pkg == ci.Do.Pkg && ch != ci.inner && ch.within(ci.top) {
+				if !seenTop[ch] {
+					seenTop[ch] = true
+					tops = append(tops, ch)
+				}
+				continue
+			}
+			ok := false
+			if ref, isR := rs.vals[0].(ARef); isR {
+				for _, cr := range ci.dynCalls(ci.top, ci.parse) {
+					if t, isT := cr.res.(ATuple); isT && len(t) == 2 {
+						if r0, isR0 := t[0].(ARef); isR0 && r0.key == ref.key {
+							ok = true
+						}
 					}
 				}
 			}
-		}
-		if ok {
-			r.ok("R12.3", fnID(ci.Do), "the only response value Do can return is parseResponseFunc's result", c.pos(rs.instr.Pos()), true)
-		} else {
-			r.fail("R12.3", fnID(ci.Do), "Do can return a response that did not come from parseResponseFunc", c.pos(rs.instr.Pos()), describeAV(rs.vals[0]), "response-origin")
+			if ok {
+				r.ok("R12.3", fnID(ci.Do), "the only response value Do can return is parseResponseFunc's result", c.pos(rs.instr.Pos()), true)
+			} else {
+				r.fail("R12.3", fnID(ci.Do), "Do can return a response that did not come from parseResponseFunc", c.pos(rs.instr.Pos()), describeAV(rs.vals[0]), "response-origin")
+			}
 		}
 	}
 }
